@@ -34,3 +34,13 @@ open AGV AGV.C03
 #print axioms goalSkippable_eq
 #print axioms matchTerminal_spec
 #print axioms skipTrivialGoals_spec
+#print axioms match_end_at_node_end
+#print axioms match_end_bounds
+#print axioms match_len_bounds
+#print axioms match_len_no_token_split
+#print axioms match_len_zero_example
+#print axioms match_end_direct_child_counterexample
+#print axioms all_st
+#print axioms endAgg_stepOK
+#print axioms Tree.wf_bounds
+#print axioms Tree.wf_no_split
